@@ -213,6 +213,10 @@ def gen_generic_action_resource(rng):
         return {"Type": "AWS::ElasticLoadBalancingV2::ListenerRule", "Properties": {"Actions": [{"Type": "forward", "TargetGroupArn": "arn"}], "Priority": 1, "Action": [{"Type": "x"}, "s3:Get*"]}}
     if k == 3:
         return {"Type": "Custom::Thing", "Properties": {"Action": {"Fn": "x", "NotAction": "ec2:Describe*"}, "NotAction": {"a": [1, 2]}, "Nested": [{"Action": "sqs:Send*"}, {"Action": None}]}}
+    if rng.random() < 0.3:
+        return {"Type": "AWS::EC2::NetworkAclEntry", "Properties": {"NetworkAclId": "acl", "RuleNumber": 100, "Protocol": -1,
+                "RuleAction": rng.choice(["allow", "deny", "s3:Get*"]), "Egress": True, "CidrBlock": "10.0.0.0/16",
+                "OnFailureAction": ["ec2:Run*"], "Actions": "iam:*"}}
     return {"Type": "AWS::Events::Rule", "Properties": {"Targets": [{"Id": "t", "Arn": "arn", "Action": rng.choice([5, True, {"k": "v"}])}]}, "Metadata": {"Action": rng.choice(["s3:Get*", {"x": 1}]), "Doc": {"NotAction": ["ec2:Run*"]}}}
 
 
